@@ -6,6 +6,7 @@ package main
 import (
 	"fmt"
 	"go/ast"
+	"go/constant"
 	"go/token"
 	"go/types"
 	"os"
@@ -249,4 +250,127 @@ func typeIsNamed(t types.Type, pkgSuffix, name string) bool {
 		return false
 	}
 	return strings.HasSuffix(n.Obj().Pkg().Path(), pkgSuffix)
+}
+
+// IndirectCallees resolves a call through a local function variable:
+//
+//	for _, f := range []func(…){a, g.b} { f(x) }      → a, b
+//	fs := []func(…){…}; for _, f := range fs { f(x) } → the elements
+//	f := g.b; f(x)                                    → b
+//
+// Only repository-visible function and method values are returned; nil when the
+// callee is anything else (a parameter, a field, a closure).
+func IndirectCallees(info *types.Info, body *ast.BlockStmt, call *ast.CallExpr) []*types.Func {
+	id, ok := ast.Unparen(call.Fun).(*ast.Ident)
+	if !ok || body == nil {
+		return nil
+	}
+	obj, ok := info.Uses[id].(*types.Var)
+	if !ok {
+		return nil
+	}
+	funcOf := func(e ast.Expr) *types.Func {
+		switch x := ast.Unparen(e).(type) {
+		case *ast.Ident:
+			if f, ok := info.Uses[x].(*types.Func); ok {
+				return f.Origin()
+			}
+		case *ast.SelectorExpr:
+			if f, ok := info.Uses[x.Sel].(*types.Func); ok {
+				return f.Origin()
+			}
+		}
+		return nil
+	}
+	var elemsOf func(e ast.Expr, depth int) []*types.Func
+	elemsOf = func(e ast.Expr, depth int) []*types.Func {
+		switch x := ast.Unparen(e).(type) {
+		case *ast.CompositeLit:
+			var out []*types.Func
+			for _, el := range x.Elts {
+				if kv, ok := el.(*ast.KeyValueExpr); ok {
+					el = kv.Value
+				}
+				f := funcOf(el)
+				if f == nil {
+					return nil
+				}
+				out = append(out, f)
+			}
+			return out
+		case *ast.Ident:
+			if depth > 2 {
+				return nil
+			}
+			if d := localDef(info, body, x); d != nil {
+				return elemsOf(d, depth+1)
+			}
+		}
+		return nil
+	}
+	var out []*types.Func
+	ast.Inspect(body, func(n ast.Node) bool {
+		switch x := n.(type) {
+		case *ast.RangeStmt:
+			if v, ok := x.Value.(*ast.Ident); ok && info.Defs[v] == obj {
+				out = elemsOf(x.X, 0)
+			}
+		case *ast.AssignStmt:
+			if x.Tok == token.DEFINE && len(x.Lhs) == len(x.Rhs) {
+				for i, l := range x.Lhs {
+					if lid, ok := l.(*ast.Ident); ok && info.Defs[lid] == obj {
+						if f := funcOf(x.Rhs[i]); f != nil {
+							out = []*types.Func{f}
+						}
+					}
+				}
+			}
+		}
+		return true
+	})
+	return out
+}
+
+// ConstCompareSet: the string constants an expression compares something with (`x == A || x == B …`),
+// upper-cased; calls to repository functions whose body is a single return statement (predicates such
+// as methodHasRequestBody(verb)) are looked through.
+func (p *Prog) ConstCompareSet(info *types.Info, n ast.Node) []string {
+	set := map[string]bool{}
+	var walk func(info *types.Info, n ast.Node, depth int)
+	walk = func(info *types.Info, n ast.Node, depth int) {
+		ast.Inspect(n, func(m ast.Node) bool {
+			switch x := m.(type) {
+			case *ast.BinaryExpr:
+				if x.Op != token.EQL {
+					return true
+				}
+				for _, side := range []ast.Expr{x.X, x.Y} {
+					if tv, ok := info.Types[side]; ok && tv.Value != nil && tv.Value.Kind() == constant.String {
+						if v := constant.StringVal(tv.Value); v != "" {
+							set[strings.ToUpper(v)] = true
+						}
+					}
+				}
+			case *ast.CallExpr:
+				if depth >= 3 {
+					return true
+				}
+				if f := Callee(info, x); f != nil {
+					if d := p.Decls[f]; d != nil && d.Body != nil && len(d.Body.List) == 1 {
+						if ret, ok := d.Body.List[0].(*ast.ReturnStmt); ok && len(ret.Results) == 1 {
+							walk(p.DeclPkg[f].TypesInfo, ret.Results[0], depth+1)
+						}
+					}
+				}
+			}
+			return true
+		})
+	}
+	walk(info, n, 0)
+	out := make([]string, 0, len(set))
+	for k := range set {
+		out = append(out, k)
+	}
+	sort.Strings(out)
+	return out
 }
